@@ -465,6 +465,46 @@ def _prime_cases(ctx: Ctx, calls: list, spec: str, kind: str, hung: bool) -> Non
             run.count("prime_result:" + ("has_inf" if None in flat else "all_finite"))
 
 
+def prime_shipped(ctx: Ctx, rng, n_files: int) -> None:
+    """the shipped .fan grammars: every prime() call made while the spec is loaded (stdlib included: several calls,
+    not all from the constructor state) against the model from the recorded state"""
+    from fandango.language.parse.parse import parse
+    import fandango.language.grammar.nodes as nodes
+    run = ctx.run
+    files = [p for p in shipped_specs()]
+    rng.shuffle(files)
+    done = 0
+    for p in files:
+        if done >= n_files:
+            break
+        try:
+            text = p.read_text()
+        except Exception:  # noqa
+            continue
+        if SKIP_PAT.search(text):
+            continue
+        cap0 = nodes.MAX_REPETITIONS
+        hung = False
+        with fio.PrimeRecorder() as rec:
+            try:
+                with limit(15):
+                    parse(text, use_cache=False, use_stdlib=True, includes=[str(p.parent)])
+            except fio.PrimeHang:
+                hung = True
+                run.count("prime:shipped_real_loop_exceeded_bound")
+            except Timeout:
+                run.count("prime:shipped_parse_timeout")
+            except BaseException as e:  # noqa  (spec code may call sys.exit)
+                run.count("prime:shipped_parse_failed:" + type(e).__name__)
+            finally:
+                nodes.MAX_REPETITIONS = cap0
+        if rec.calls:
+            done += 1
+            run.count("prime:shipped_file")
+        _prime_cases(ctx, rec.calls, str(p.relative_to(REPO)), "shipped", hung)
+    ctx.flush_ops()
+
+
 def stage_prime(ctx: Ctx, rng, n_grammars: int) -> None:
     from fandango.language.grammar.nodes.terminal import TerminalNode
     run = ctx.run
@@ -1524,6 +1564,7 @@ def main(tier: str) -> int:
     t0 = time.time()
     stage_corpus(ctx, run.rng("corpus"))
     stage_prime(ctx, run.rng("prime"), 40 if quick else 900)
+    prime_shipped(ctx, run.rng("prime-shipped"), 15 if quick else 10 ** 6)
     run.coverage["t_prime_s"] = round(time.time() - t0, 1)
     stage_fuzz(ctx, run.rng("fuzz"), 60 if quick else 900, 8 if quick else 12)
     run.coverage["t_fuzz_s"] = round(time.time() - t0, 1)
